@@ -7,14 +7,11 @@ Statements about the `TalkRequest` life cycle of `Model/Service.lean` (`respond`
 is dropped once) is the grammar `TalkUse`.
 -/
 import Discv5Model.Model.Service
+import Discv5Model.Model.Talk
+import Discv5Model.Proofs.TalkLemmas
 
 namespace Discv5.Props.C20
-open Discv5.Svc
-
-/-- The payload the application asked for: its own if it responds, empty if it only drops. -/
-def payloadOf : TalkUse → Bytes
-  | .respond p => p
-  | .dropOnly => []
+open Discv5.Svc Discv5.Talk
 
 /-- While the node is running (`chanOpen = true`), whatever the application does with a freshly
 delivered request object (respond, or just drop it), exactly one TALKRESP is sent: to the node
@@ -42,6 +39,108 @@ theorem drop_after_respond_silent (t : TalkReq) (p : Bytes) (chanOpen : Bool) :
     ((t.respond p chanOpen).1).drop chanOpen = [] := by
   unfold TalkReq.respond
   by_cases hs : t.sender = true <;> by_cases hc : chanOpen = true <;> simp [TalkReq.drop, hs, hc]
+
+/-! ### Histories: concurrently held request objects (`Model/Talk.lean`)
+
+The application holds any number of request objects and consumes them (respond / drop) in any
+order, or never; the service shuts down at any point.  Outputs are tagged with the number of the
+object that caused them, so the statements below do not depend on request ids being distinct. -/
+
+/-- The object created for a TALKREQ carries the request's id and the node address (peer id and
+socket address) the request came from, and its sender. -/
+theorem delivered_object (w : World) (h : w.running = true) (rid : Bytes) (peer : Nat) (addr : Addr) :
+    (w.step (.deliver rid peer addr)).1.reqs[w.reqs.length]? =
+      some (some { rid := rid, peer := peer, addr := addr, sender := true }) := by
+  simp [World.step, h]
+
+/-- Never a second response: over every history and for every object, at most one TALKRESP is
+ever caused by it. -/
+theorem never_two (ops : List Op) (i : Nat) :
+    (outputsOf i ((World.run {} ops).2.2)).length ≤ 1 := by
+  have h := winv_run {} [] winv_init ops
+  simp only [List.nil_append] at h
+  have hi := h i
+  cases e : (World.run {} ops).1.reqs[i]? with
+  | none => simp [hi.2.2 e]
+  | some o =>
+    cases o with
+    | none => exact hi.2.1 e
+    | some t => simp [(hi.1 t e).2]
+
+/-- An object the application still holds has not been answered yet (nothing is sent on its
+behalf before the application acts), and it still has its sender. -/
+theorem held_unanswered (ops : List Op) (i : Nat) (t : TalkReq)
+    (h : (World.run {} ops).1.reqs[i]? = some (some t)) :
+    outputsOf i ((World.run {} ops).2.2) = [] ∧ t.sender = true := by
+  have hw := winv_run {} [] winv_init ops
+  simp only [List.nil_append] at hw
+  exact ⟨((hw i).1 t h).2, ((hw i).1 t h).1⟩
+
+/-- Exactly one: if, after any history `pre`, the node is running and the application consumes the
+object `i` it holds (responding with a payload, or dropping it), then over the *whole* history -
+whatever came before and whatever comes after - the responses caused by that object are exactly one
+TALKRESP with the request's id, to the node address it came from, carrying the application's
+payload (empty if dropped). -/
+theorem answered_exactly_once (pre post : List Op) (i : Nat) (u : TalkUse) (t : TalkReq)
+    (hrun : (World.run {} pre).1.running = true)
+    (hheld : (World.run {} pre).1.reqs[i]? = some (some t)) :
+    outputsOf i ((World.run {} (pre ++ .use i u :: post)).2.2) =
+      [.response t.peer t.addr t.rid (.talk (payloadOf u))] := by
+  obtain ⟨hnone, hs⟩ := held_unanswered pre i t hheld
+  have hilt : i < (World.run {} pre).1.reqs.length := by
+    rcases List.getElem?_eq_some_iff.mp hheld with ⟨hlt, _⟩; exact hlt
+  rw [run_append]
+  simp only [World.run, outputsOf_append, hnone, List.nil_append]
+  rw [step_use_hit _ i u t hheld]
+  simp only
+  have hc : ({ (World.run {} pre).1 with reqs := (World.run {} pre).1.reqs.set i none } : World).reqs[i]? =
+      some none := by simp [hilt]
+  rw [(consumed_stays _ i hc post).2, outputsOf_tag_same, life_outputs t hs, hrun]
+  simp
+
+/-- After shutdown: from any state in which the service has stopped, whatever the application does
+with the objects it holds (and whatever else happens), nothing is sent any more. -/
+theorem after_shutdown_silent (pre post : List Op)
+    (hstop : (World.run {} pre).1.running = false) :
+    (World.run {} (pre ++ post)).2.2 = (World.run {} pre).2.2 := by
+  rw [run_append]
+  simp [(stopped_stays _ hstop post).2]
+
+/-- No use of any object in any history panics (`sender.take().unwrap()` is never reached with an
+empty sender), and responding after shutdown yields the error value. -/
+theorem never_panics (ops : List Op) : TalkResult.panic ∉ (World.run {} ops).2.1 := by
+  suffices H : ∀ (w : World) (outs : List (Nat × Out)), WInv w outs →
+      TalkResult.panic ∉ (w.run ops).2.1 from H {} [] winv_init
+  induction ops with
+  | nil => intro w outs _; simp [World.run]
+  | cons op rest ih =>
+    intro w outs hw
+    have hrest := ih (w.step op).1 _ (winv_step w outs hw op)
+    simp only [World.run, List.mem_append, not_or]
+    refine ⟨?_, hrest⟩
+    cases op with
+    | shutdown => simp [World.step]
+    | deliver rid peer addr => by_cases hr : w.running = true <;> simp [World.step, hr]
+    | use j u =>
+      by_cases hhit : ∃ t, w.reqs[j]? = some (some t)
+      · obtain ⟨t, hj⟩ := hhit
+        have hs := ((hw j).1 t hj).1
+        rw [step_use_hit w j u t hj]
+        cases u <;> cases w.running <;>
+          simp [TalkReq.life, TalkReq.respond, hs]
+      · have hm : ∀ t, w.reqs[j]? ≠ some (some t) := fun t ht => hhit ⟨t, ht⟩
+        rw [step_use_miss w j u hm]
+        simp
+
+/-- Non-vacuity of the history theorems: three requests held concurrently (two with the same id
+from different peers), answered out of order, one dropped, one consumed after shutdown. -/
+example :
+    let a : Addr := { v6 := false, sock := 655369000 }
+    let ops : List Op := [.deliver [1] 7 a, .deliver [1] 8 a, .deliver [2] 7 a,
+      .use 1 (.respond [9, 9]), .use 0 .dropOnly, .shutdown, .use 2 (.respond [5])]
+    (World.run {} ops).2.2 = [(1, .response 8 a [1] (.talk [9, 9])), (0, .response 7 a [1] (.talk []))] ∧
+    (World.run {} ops).2.1 = [.ok, .channelClosed] := by
+  decide
 
 /-- Non-vacuity: a delivered request object. -/
 example : ({ rid := [1, 2], peer := 7, addr := { v6 := false, sock := 655369000 } } : TalkReq).sender = true := rfl
